@@ -92,7 +92,10 @@ PINS = {
     "C07": _CFG,
     "C08": _FAN,
     "C09": _LIFE + _CFG,
-    "C10": _LIFE + _REASM,
+    "C10": _LIFE + _REASM + [(COMM, "CommHandler", f) for f in ("_get_ack", "_get_frame", "channels_write", "_nxslib_channels_enable",
+                                                              "_nxslib_channels_div", "_channel_enable", "_channel_div",
+                                                              "ch_disable_all", "stream_data")] +
+           [(NX, "NxscopeHandler", f) for f in ("ch_disable_all", "channels_write", "_stream_thread")],
     "C11": _CFG + [(COMM, "CommHandler", "stream_start"), (COMM, "CommHandler", "stream_stop")],
     "C12": _CFG + _FAN,
     "C13": _THREAD,
